@@ -69,7 +69,7 @@ FIXED_STDERR = [["p", "Error: could not evaluate ", "/data/g/age", ""], ["p", "I
 
 WORDS = ["Error", "evaluating", "field", "XPath", "expression", "cycle", "binding", "relevant", "calculate", "problem", "at", "line",
          "Résumé", "form", "instance", "null", "expected", ">>>", "(bad)", "100%", "type mismatch:"]
-SEGS = ["data", "g", "grp_1", "age", "my-field", "q1", "meta", "instanceID", "Repeat9", "x_y", "hh.size", "prénom", "v1.2", "Ünï", "item", "value", "k.9-z", "नाम", "สกุล", "prénom", "item_count", "body_parts"]
+SEGS = ["data", "g", "grp_1", "age", "my-field", "q1", "meta", "instanceID", "Repeat9", "x_y", "hh.size", "prénom", "v1.2", "Ünï", "item", "value", "k.9-z", "नाम", "สกุล", "prénom", "item_count", "body_parts", "esri:x", "odk:len"]
 POSITION = re.compile(r"\[\d+\]$")
 GRAMMAR_PATH = re.compile(r"^(/[^/\s\[\]]+(\[\d+\])?){2,}$")
 
